@@ -150,7 +150,11 @@ pub(crate) fn solve_expression(
                         return SolverResult::False;
                     }
                 }
-                (Expression::Field(left), BoolSym::Equal, Expression::Null) => {
+                (
+                    Expression::Field(left) | Expression::Cast(left, _),
+                    BoolSym::Equal,
+                    Expression::Null,
+                ) => {
                     let x = match document.find(left) {
                         Some(x) => x,
                         None => {
